@@ -5,6 +5,8 @@ SPECIAL_TC = "'|[]\r\n"
 SPECIAL_XML = "&<>\"'\r\n"
 SPECIAL_FILE = "/\\?%*:|\"<>"
 PRINTABLE = "".join(chr(c) for c in range(0x20, 0x7F))
+# printf conversions: the report files and the console go through fputs-like seams; nothing may be treated as a format
+PERCENT = ["%d", "%s", "%n", "%x", "%%", "% ", "%", "%5d%s", "100%s"]
 WORDS = ["test", "Group", "a", "b", "x1", "main", "io", "fooBar", "util.cpp", "src/dir/file.cpp", "C:\\dir\\f.c",
          "it's[here].cpp", "gr\"p<1>", "na&me", "dir/a\"b.cpp", "&amp;", "&#10;", "|n", "||", "|'", "']", "]]>", "<!--",
          "##teamcity", "&lt;", "\r\n", "a b", " ", "%s", "%d%n", "100%"]
@@ -50,7 +52,9 @@ def text(rng, maxlen=12, specials=SPECIAL_TC + SPECIAL_XML, p_special=0.35, allo
     out = []
     for _ in range(n):
         y = rng.random()
-        if y < p_special:
+        if y < 0.07:
+            out.append(rng.choice(PERCENT))
+        elif y < p_special:
             out.append(rng.choice(specials))
         elif y < p_special + 0.05 and extra:
             out.append(rng.choice(extra))
@@ -177,6 +181,18 @@ def read_registry(ops):
         except ValueError:
             pass
     return reg
+
+
+def junit_file_names(reg):
+    """names of the report files of a run, in the order they are written (sanitised cpputest_[package_]group.xml;
+    the group is unknown - empty - when none of its tests runs)"""
+    bad = set(b'/\\?%*:|"<>')
+    names = []
+    for g, ts in group_runs(reg["tests"]):
+        any_runs = any(should_run(reg, t) for t in ts)
+        raw = b"cpputest_" + (reg["package"] + b"_" if reg["package"] else b"") + (g if any_runs else b"")
+        names.append(bytes(95 if c in bad else c for c in raw) + b".xml")
+    return names
 
 
 def should_run(reg, t):
